@@ -38,6 +38,7 @@ import (
 	"fmt"
 	"os"
 	"sort"
+	"strings"
 	"sync"
 	"sync/atomic"
 	"time"
@@ -469,6 +470,7 @@ type scenario struct {
 	segSize   int32   // WAL segment size (0 = 256 KiB: no rollover in a scenario)
 	valMax    int     // own put's value is padded to 100..valMax bytes (0 = the key only)
 	trim      bool    // a trimmer round every millisecond while the writes run (retention 1 ms)
+	earlyParked bool  // early-ack with rf >= 4: only f1 acks entry earlyAck ahead of the head, the other cursors are parked in WaitForHeadOffset
 	ackFirst  bool    // followers: ack delivered and processed before the cursor's Send returns
 	quorumOnly bool   // only rf/2 followers are alive (every one of them is needed for the quorum)
 	streamBreak int   // 0 = none; k > 0: f1's stream breaks with the last k pushed entries in flight
@@ -798,6 +800,34 @@ func runScenario(o *hx.Out, sc scenario, tmpRoot string, idx int) {
 			cancel()
 			results = append(results, r)
 		}
+	} else if sc.earlyParked {
+		// sequential writer.  f1 is held inside Send(x-1) (so its cursor is not parked) until the sync callback of x has
+		// been entered; the other followers acknowledge 0..x-1 and their cursors park waiting for the head to reach x
+		x := sc.earlyAck
+		ok := true
+		for i := int64(0); i < x && ok; i++ {
+			r := doWrite(cl, fmt.Sprintf("w0-%d", i))
+			results = append(results, r)
+			ok = !r.stuck && r.err == nil
+		}
+		if ok {
+			for n, f := range prov.followers {
+				if n != "f1" {
+					f := f
+					wait(func() bool { return f.hasReceived(x - 1) }, stuckTimeout)
+				}
+			}
+			time.Sleep(3 * time.Millisecond) // the cursors go from Send(x-1) to WaitForHeadOffset(x)
+		}
+		for i := x; i < int64(total); i++ {
+			if !ok {
+				results = append(results, writeRes{key: fmt.Sprintf("w0-%d", i), stuck: true})
+				continue
+			}
+			r := doWrite(cl, fmt.Sprintf("w0-%d", i))
+			results = append(results, r)
+			ok = !r.stuck && r.err == nil
+		}
 	} else if sc.streamBreak > 0 {
 		pf := prov.pfollowers["f1"]
 		k := sc.streamBreak
@@ -1051,6 +1081,19 @@ func runScenario(o *hx.Out, sc scenario, tmpRoot string, idx int) {
 	// ---- verdicts on the responses.  Every request puts its own key and the key "shared"; the DB hands out
 	// version ids from one counter in application order, so the request applied k-th sees versions 2k, 2k+1 and
 	// k earlier modifications of "shared".  Applied in offset order, once each, own response <=> k = its WAL offset.
+	// a WAL flush that fails with EINVAL: the sync goroutine picks the current segment under the WAL lock and flushes it
+	// after releasing the lock; a rollover in between closes (unmaps) that segment (wal_impl.go:runSync vs
+	// rolloverSegment).  Every write of that sync batch is failed although its entry is in the WAL.  It is a defect of the
+	// WAL (C09), reported under its own signature; the order verdicts below are meaningless after it.
+	nWalSync := 0
+	for _, r := range results {
+		if r.err != nil && sc.segSize > 0 && strings.Contains(r.err.Error(), "invalid argument") {
+			nWalSync++
+		}
+	}
+	if nWalSync > 0 {
+		viol("pipeline:wal-sync-error-at-segment-rollover", fmt.Sprintf("%d of %d writes failed with 'failed to append to wal: invalid argument' while the WAL was rolling segments over", nWalSync, total))
+	}
 	nerr, nstuck, ncancelled := 0, 0, 0
 	firstErr := ""
 	seenVersion := map[int64]string{}
@@ -1061,6 +1104,8 @@ func runScenario(o *hx.Out, sc scenario, tmpRoot string, idx int) {
 		case r.err != nil && r.cancelled != "" && errors.Is(r.err, context.Canceled):
 			// the caller gave up: an error answer is acceptable, the entry (if admitted) must still be applied - checked below
 			ncancelled++
+		case r.err != nil && nWalSync > 0 && strings.Contains(r.err.Error(), "invalid argument"):
+			ncancelled++ // accounted for above; keeps the count-based verdicts off
 		case r.err != nil:
 			nerr++
 			if firstErr == "" {
@@ -1082,7 +1127,7 @@ func runScenario(o *hx.Out, sc scenario, tmpRoot string, idx int) {
 				viol("pipeline:response-not-own", fmt.Sprintf("write %s was answered (version %d) but is not in the WAL", r.key, r.version))
 				continue
 			}
-			if r.version != 2*off || r.sharedV != 2*off+1 || r.sharedM != off {
+			if nWalSync == 0 && (r.version != 2*off || r.sharedV != 2*off+1 || r.sharedM != off) {
 				viol("pipeline:applied-out-of-order-or-foreign-response", fmt.Sprintf(
 					"write %s sits at WAL offset %d, its response carries versions %d,%d and %d earlier modifications of the shared key (expected %d,%d,%d: applied once each in offset order, own response)",
 					r.key, off, r.version, r.sharedV, r.sharedM, 2*off, 2*off+1, off))
@@ -1258,6 +1303,9 @@ func main() {
 	idx := 0
 	run := func(sc scenario) {
 		idx++
+		if only := os.Getenv("VERIF_PIPE_ONLY"); only != "" && !strings.HasPrefix(sc.name, only) {
+			return
+		}
 		if wedgedScenarios[sc.name] {
 			o.Count("skipped(after a wedged controller in this kind):" + sc.name)
 			return
@@ -1291,6 +1339,11 @@ func main() {
 		// forced: follower ack overtakes the head advance
 		x := int64(1 + r.Intn(5))
 		run(scenario{name: "early-ack", rf: 2, syncData: true, writers: 1, puts: int(x) + 1, earlyAck: x, asyncPair: true})
+		// forced: with rf 4 and 5 one follower acks ahead of the head (fewer than the quorum), the other cursors are parked
+		for _, rf := range []uint32{4, 5} {
+			xx := int64(1 + r.Intn(4))
+			run(scenario{name: fmt.Sprintf("early-ack-parked-rf%d", rf), rf: rf, syncData: true, writers: 1, puts: int(xx) + 2, earlyAck: xx, earlyParked: true})
+		}
 		// forced: offset n is being applied while the other follower acknowledges n+1
 		// forced: the caller's context is cancelled at every stage of the pipeline, rf 1..5
 		for rf := uint32(1); rf <= 5; rf++ {
